@@ -163,8 +163,16 @@ def check(ctx, res) -> None:
     for n in cfg.nodes:
         if n.kind == "stmt" and any(isinstance(x, ast.Yield) for x in ast.walk(n.ast)):
             gs = cfg.guards(n.id)
-            ok = any(pol and isinstance(t, ast.Name) and t.id == "result" for t, pol in gs) and \
-                any(not pol and isinstance(t, ast.Compare) and isinstance(t.ops[0], ast.Is) and isinstance(t.left, ast.Name) and t.left.id == "result"
+            # the verdict variable: assigned from a call of the loop variable ranging over self.filters
+            verdicts = set()
+            for lp in walk_local(fo.node):
+                if isinstance(lp, ast.For) and isinstance(lp.target, ast.Name) and any(is_self_attr(x, "filters") for x in ast.walk(lp.iter)):
+                    for a in walk_local(lp):
+                        if isinstance(a, ast.Assign) and isinstance(a.targets[0], ast.Name) and isinstance(a.value, ast.Call) \
+                                and isinstance(a.value.func, ast.Name) and a.value.func.id == lp.target.id:
+                            verdicts.add(a.targets[0].id)
+            ok = any(pol and isinstance(t, ast.Name) and t.id in verdicts for t, pol in gs) and \
+                any(not pol and isinstance(t, ast.Compare) and isinstance(t.ops[0], ast.Is) and isinstance(t.left, ast.Name) and t.left.id in verdicts
                     for t, pol in gs)
             res.add("R02.3", "find_occurrences|yield", ok, f"{fo.unit.rel}:{n.lineno}",
                     "an occurrence is yielded only when a filter returned a truthy, non-None result" if ok else
@@ -267,8 +275,11 @@ def filter_order_rule(ctx, res, rule: str, func_qual: str) -> None:
             for a in list(c.args) + [k.value for k in c.keywords]:
                 if isinstance(a, ast.List):
                     sequences.append(list(a.elts))
+    # the local list that collects the filters: the one handed to Finder(...)
+    list_vars = {a.id for c in calls_in(f.node) if call_name(c) == "Finder" for a in list(c.args) + [k.value for k in c.keywords]
+                 if isinstance(a, ast.Name)}
     appended = [c.args[0] for c in calls_in(f.node) if isinstance(c.func, ast.Attribute) and c.func.attr == "append"
-                and isinstance(c.func.value, ast.Name) and c.func.value.id == "filters" and c.args]
+                and isinstance(c.func.value, ast.Name) and c.func.value.id in list_vars and c.args]
     if appended:
         sequences.append(appended)  # calls_in is sorted by source position = append order on the straight-line path
     if not sequences:
